@@ -166,6 +166,26 @@ var styles = []struct {
 	{"reversed-imports", c03.Style{ReverseImports: true}},
 	{"spaced-tokens", c03.Style{OpenBraceNL: true}},
 	{"everything", c03.Style{Comments: 2, Indent: "   ", BlankLines: true, ReverseImports: true, OpenBraceNL: true}},
+	// proto2 only: the implied `syntax = "proto2";` line is left out (buf: "syntax unspecified")
+	{"no-syntax-line", c03.Style{NoSyntaxLine: true}},
+	{"no-syntax-line-commented", c03.Style{NoSyntaxLine: true, Comments: 1, BlankLines: true}},
+}
+
+// styleApplies: the no-syntax-line renderings exist for proto2 only.
+func styleApplies(base string, st c03.Style) bool { return !st.NoSyntaxLine || base == "proto2" }
+
+// noSyntaxBase is the proto2 base with every file written without a syntax declaration.
+func noSyntaxBase() c03.Base {
+	for _, b := range c03.Bases() {
+		if b.Name == "proto2" {
+			s := b.Schema.Clone()
+			for _, f := range s.Files {
+				f.NoSyntaxDecl = true
+			}
+			return c03.Base{Name: "proto2-no-syntax-line", Schema: s}
+		}
+	}
+	panic("no proto2 base")
 }
 
 func run(r *evid.Run) {
@@ -215,6 +235,9 @@ func run(r *evid.Run) {
 		for i := range styles {
 			for j := range styles {
 				i, j := i, j
+				if !styleApplies(b.Name, styles[i].st) || !styleApplies(b.Name, styles[j].st) {
+					continue
+				}
 				jobs = append(jobs, func() {
 					oldR, newR := s.Render(styles[i].st), s.Render(styles[j].st)
 					oldImg, err1 := x.eng.CachedImage(oldR)
@@ -245,11 +268,13 @@ func run(r *evid.Run) {
 		opNames = append(opNames, o.Name)
 	}
 	r.Set("additive_operators", opNames)
-	for _, b := range c03.Bases() {
+	for _, b := range append(c03.Bases(), noSyntaxBase()) {
 		if r.Expired() || !phases["additive"] {
 			break
 		}
 		b := b
+		// the base without syntax declarations: single steps only (quick and thorough)
+		singleOnly := b.Name == "proto2-no-syntax-line"
 		baseR := b.Schema.Render(c03.Style{})
 		// canonical and all sites per operator, computed on the base
 		var canon []step
@@ -288,14 +313,18 @@ func run(r *evid.Run) {
 			return strings.Join(parts, "+")
 		}
 		var chains [][]step
-		for _, seq := range enum.Sequences(len(canon), 1, 2) {
+		maxLen := 2
+		if singleOnly {
+			maxLen = 1
+		}
+		for _, seq := range enum.Sequences(len(canon), 1, maxLen) {
 			ch := make([]step, len(seq))
 			for i, k := range seq {
 				ch[i] = canon[k]
 			}
 			chains = append(chains, ch)
 		}
-		if maxChain >= 3 {
+		if maxChain >= 3 && !singleOnly {
 			// length 3 over the core operators (the ones that touch the same parents: fields, oneofs,
 			// reserved, enum values, nested and top-level types, imports, files)
 			var core []step
